@@ -376,24 +376,16 @@ def structural(res, opts):
     add_ob(res, 'priority.fallback_minus_100', d_fb == ["handler('generate_events', priority=-100)"], 'ast', detail=str(d_fb))
     add_ob(res, 'priority.timers_before_blockers', 0 > -9 > -100, 'ast',
            detail='with C02 (descending handler priority) every timer bounds time_left before a poller or the fallback generator blocks')
-    add_ob(res, 'poller.stops_event_then_generates', 'event.stop()\n    self._generate_events(event)' in src_poll, 'ast', detail=src_poll[-120:])
-    for kind, call in (('Select', 'select.select(self._read, self._write, [], timeout)'), ('Poll', 'self._poller.poll(1000 * timeout)'),
-                       ('EPoll', 'self._poller.poll(timeout)')):
-        _, src = deco('circuits/core/pollers.py', kind + '._generate_events')
-        add_ob(res, 'poller.%s.timeout_is_time_left' % kind, 'timeout = event.time_left' in src and call in src, 'ast',
-               detail='the kernel wait is bounded by event.time_left read inside _generate_events')
+    # (the poller halves - kernel wait bounded by time_left, resume writes the control pipe, the event is stopped - are contracts now:
+    #  contracts.pollers *._generate_events, contracts.pollers_wake)
     _, src = deco('circuits/core/helpers.py', 'FallBackGenerator.resume')
     add_ob(res, 'resume.fallback_sets_flag', 'self._continue.set()' in src, 'ast', detail=src[-60:])
-    _, src = deco('circuits/core/pollers.py', 'BasePoller.resume')
-    add_ob(res, 'resume.poller_writes_control_pipe', "os.write(self._ctrl_send, b'\\x00')" in src and "self._ctrl_send.send(b'\\x00')" in src, 'ast',
-           detail=src[-160:])
 
 
 SPECS.append(CustomCheck('C09', 'priorities(structural)', structural, file='circuits/core/*.py',
-                         clause='decorator facts: Timer (0) > BasePoller (-9) > FallBackGenerator (-100); pollers pass event.time_left as '
-                                'the kernel timeout; resume bodies set the flag / write the control pipe'))
+                         clause='decorator facts: Timer (0) > BasePoller (-9) > FallBackGenerator (-100); the fallback resume sets the flag'))
 SPECS.append(CustomCheck('C03', 'wakeup(structural)', structural, file='circuits/core/*.py',
-                         clause='(sequential mechanism 4, pollers) timeout read after event.stop(); resume = one byte to the control pipe'))
+                         clause='(sequential mechanism 4) handler priorities; the fallback resume sets the flag (the poller halves are contracts)'))
 
 
 # ----------------------------------------------------------------------------- C03.2: arming block of the dispatcher
